@@ -358,6 +358,16 @@ func ruleDecodeThenParams(r *Run) {
 			continue
 		}
 		key := shortFunc(fn)
+		// the URL parameters are applied once, to the first message, and "first" is told by a per-stream counter
+		// RecvMsg bumps on entry: a RecvMsg that calls itself (to skip a frame, say) bumps it twice for one
+		// message and the parameters are never applied
+		selfCall := false
+		p.eachInstrRegion(fn, func(_ *ssa.Function, in ssa.Instruction) {
+			if c, ok := in.(ssa.CallInstruction); ok && c.Common().StaticCallee() == fn {
+				selfCall = true
+			}
+		})
+		r.check(!selfCall, key+"/not-reentrant", fn.Pos(), "RecvMsg does not call itself", "RecvMsg calls itself: every call bumps the received-message counter, so after one inner call the first real message is no longer the 'first' and path and query parameters are not applied to it (a body value for a path-bound field wins)")
 		sets := callsIn(fn, nParamsSet)
 		if len(sets) == 0 {
 			r.bad(key+"/params-applied", fn.Pos(), "RecvMsg never calls params.set: path and query parameters are not applied to the request message")
